@@ -72,6 +72,34 @@ def gen_plan(rng, i: int, tier: str) -> dict:
             # lockstep at the world's seams (so that the stores of the threads fall together) plus line-level pre-emption in between
             plan["threads"] = {"mode": "marks", "q": r.choice((0.7, 0.9, 1.0)), "p": r.choice((0.02, 0.1, 0.3))} if r.random() < 0.7 else {"mode": "prob", "p": r.choice((0.05, 0.3))}
         return plan
+    if i % 25 == 6:
+        # the DC found through DNS serves a first call, then goes away for good while another one (same keys, another name) takes
+        # over and the SRV record follows; later calls on the same cache that need the DC must find the new one
+        plan["use_dns"] = True
+        plan["family"] = "dc-failover"
+        fls = lambda: rng.choice(("sync", "async"))  # noqa: E731
+        first = pos_choice(True)
+        if tuple(first) > (l0,) + now_pos:
+            first = [l0, now_pos[0], 0]
+        ops.append({"op": "unprotect", "fl": fls(), "net": "online", "group": None, "blob": {"rk": 0, "sid": offline.SID_A, "pos": first, "mode": "nonce", "data": 4}})
+        if rng.random() < 0.5:
+            ops.append({"op": "protect", "fl": fls(), "net": "online", "group": None, "sid": offline.SID_A, "rk": rng.choice((None, 0)), "data": 5})
+        ops.append({"op": "dc_failover", "host": rng.choice(("dc02.domain.test", "dc-b.sub.domain.test"))})
+        for _ in range(rng.randint(1, 3)):
+            r = rng.random()
+            if r < 0.4:  # another epoch of the same key: not covered
+                p_ = [l0 - rng.randint(1, 2), rng.randrange(32), rng.randrange(32)]
+                rk_ = 0
+            elif r < 0.6:  # the other root key
+                p_, rk_ = pos_choice(True), 1
+            elif r < 0.8:  # covered by what the first call obtained: no DC at all
+                p_, rk_ = [l0, rng.randrange(0, first[1] + 1), 0], 0
+            else:
+                p_, rk_ = [l0, now_pos[0], now_pos[1]], 0
+            ops.append({"op": "unprotect", "fl": fls(), "net": "online", "group": None, "blob": {"rk": rk_, "sid": offline.SID_A, "pos": p_, "mode": rng.choice(("nonce", "pub")), "data": 4}})
+        if rng.random() < 0.4:
+            ops.append({"op": "protect", "fl": fls(), "net": "online", "group": None, "sid": rng.choice(SIDS), "rk": rng.choice((None, 1)), "data": 5})
+        return plan
     n = rng.randint(2, 10 if tier == "thorough" else 7)
     focus_rk, focus_sid = rng.randrange(2), rng.choice(SIDS[:1] * 3 + SIDS[1:])
     g = 0
@@ -273,7 +301,7 @@ class C10(common.Check):
     rule = ("case = plan of 2..10 operations on ONE shared KeyCache over {load_key, unprotect of a reference-made blob (2 root keys x 2 SIDs x "
             "current/previous L0 x positions incl. corners and DC-future), protect (root key id named or not), clock advance or step back, change of "
             "the caller's group membership, unprotect of a record whose tag bit is flipped followed later by the intact one}, plus long offline "
-            "histories over 17..24 L0 epochs, plus several L0 epochs of one (root key, SD) fetched at once by caller threads / async tasks and then used again, each offline or "
+            "histories over 17..24 L0 epochs, plus histories in which the DC found through DNS serves a first call and then goes away for good while another one takes over under another name (calls that need a DC must reach the new one, covered calls none), plus several L0 epochs of one (root key, SD) fetched at once by caller threads / async tasks and then used again, each offline or "
             "online, sync or async; consecutive async operations of a group run concurrently under the PRNG scheduler (latencies up to 200 ms "
             "decide completion order; a caller may cancel its call at a PRNG-chosen virtual instant; connects slower than the 5 s timeout), PRNG "
             "segmentation. Oracle: termination within 300 KDF calls; outcome in the set a fresh cache (with the "
@@ -284,7 +312,7 @@ class C10(common.Check):
                   "security context": "stub (StubCtx)", "reference model": "analytic fresh-cache model + ref.cms/ref.gkdi"}
     assumptions = ["'fresh cache' = a new KeyCache holding the root keys loaded so far", "two overlapping operations may both fetch: RPC economy is judged only for operations invoked after the covering one returned (global event sequence numbers)"]
     required_fired = ("cache_hit_no_rpc", "cache_made_it_possible", "legit_failure", "concurrent_groups", "covered_op", "identity_change", "many_l0", "slowconn", "cancelled_by_caller",
-                      "thread_groups", "thread_overlap", "thread_obtained", "damaged_record", "epochs_at_once")
+                      "thread_groups", "thread_overlap", "thread_obtained", "damaged_record", "epochs_at_once", "dc_failover")
 
     def cases(self, tier, seed):
         rng = prng.stream(seed, "C10")
@@ -303,6 +331,7 @@ class C10(common.Check):
         probes["concurrent_groups"] = conc
         probes["many_l0"] = int(case.get("family") == "many-l0")
         probes["epochs_at_once"] = int(case.get("family") == "epochs-at-once")
+        probes["dc_failover"] = st.get("dc_failover", 0)
         probes["thread_groups"] = sum(1 for g_, v in groups.items() if v > 1 and any(o.get("group") == g_ and o.get("fl") == "thread" for o in case["ops"]))
         probes["thread_overlap"] = st.get("toverlap", 0)
         sched = common.key_hash(tr.schedule)
